@@ -2,10 +2,11 @@
    equality is total, reflexive, symmetric and sensitive.  Theorems about the model
    coq/Model/Pickle.v of Lattice.__getstate__/__setstate__/__eq__/__ne__ (lattice.py:222-269).
 
-   NOT covered by a theorem (S/K in harness/c09.py only): "identical plaquettes and adjacency tables" and
-   "same results under every other koala operation" when the float32 rounding moves a position (they are
-   functions of the three arrays, so C09_roundtrip_exact_on_float32 covers lattices whose positions are
-   float32 numbers); pickle's own transport of the state for protocols 2..5; NaN / inf positions;
+   NOT covered by a theorem (S/K in harness/c09.py only): "same results under every other koala operation"
+   when the float32 rounding moves a position (C09_roundtrip_exact_on_float32 covers lattices whose positions
+   are float32 numbers).  "Identical plaquettes and adjacency tables" is PROVED at the end of this file under
+   the evaluated hypothesis that the rounding flips none of the geometric predicates the code branches on
+   (C09_roundtrip_tables; the hypothesis is necessary: C09_roundtrip_tables_needs_preds); pickle's own transport of the state for protocols 2..5; NaN / inf positions;
    "constructing the same lattice twice yields the same plaquette order" (trivial for a function). *)
 From Coq Require Import List ZArith Bool Arith QArith Qabs.
 From Koala Require Import Model.Pickle Gen.PickleGen Proofs.PickleFacts.
